@@ -583,3 +583,360 @@ def promoted_str(F, c):
                         if cc is not None and "str" in cc:
                             return cc["str"]
     return None
+
+
+# ------------------------------------------------------------------------------------------
+# inlining (bounded): intraprocedural rules stay exact when code is extracted into a private helper
+
+
+def _shift_place(pl, off):
+    return {"l": pl["l"] + off, "p": [([p[0], p[1] + off] + list(p[2:]) if p[0] == "i" else p) for p in pl["p"]]}
+
+
+def _shift_op(op, off):
+    if op is None:
+        return None
+    if "cp" in op:
+        return {"cp": _shift_place(op["cp"], off)}
+    if "mv" in op:
+        return {"mv": _shift_place(op["mv"], off)}
+    return op
+
+
+def _shift_rv(rv, off):
+    r = dict(rv)
+    for k in ("op", "a", "b"):
+        if k in r and isinstance(r[k], dict):
+            r[k] = _shift_op(r[k], off)
+    if "ops" in r:
+        r["ops"] = [_shift_op(o, off) for o in r["ops"]]
+    if "pl" in r:
+        r["pl"] = _shift_place(r["pl"], off)
+    return r
+
+
+def _shift_term(t, off_l, off_b, ret_block):
+    r = dict(t)
+    k = r["k"]
+    if k == "return":
+        return {"k": "goto", "t": ret_block, "line": r.get("line"), "exp": r.get("exp", ""), "inl_return": True}
+    if "t" in r and r["t"] is not None:
+        r["t"] = r["t"] + off_b
+    if k == "call":
+        r["dest"] = _shift_place(r["dest"], off_l)
+        r["args"] = [_shift_op(a, off_l) for a in r["args"]]
+    elif k == "switch":
+        r["discr"] = _shift_op(r["discr"], off_l)
+        r["targets"] = [[v, b + off_b] for v, b in r["targets"]]
+        r["otherwise"] = r["otherwise"] + off_b if r["otherwise"] is not None else None
+    elif k == "assert":
+        r["cond"] = _shift_op(r["cond"], off_l)
+    elif k == "drop":
+        r["pl"] = _shift_place(r["pl"], off_l)
+    elif k == "yield":
+        r["value"] = _shift_op(r["value"], off_l)
+    return r
+
+
+def inline_calls(F, fn, want=None, depth=2, max_blocks=1500):
+    """A synthetic fn record: `fn` with calls to workspace functions replaced by the callee's body.
+
+    want(t, callee_fn) -> bool selects call sites (default: every non-async, non-recursive workspace function that is not a
+    trait method and has at most 150 blocks).  Locals and blocks of the callee are appended (renumbered); parameters are assigned from the
+    arguments in the calling block, `return` becomes a jump to a landing block that assigns the call's destination.  Each
+    inlined statement / terminator carries "inl": <callee path>.  Original block and local numbers of `fn` are unchanged.
+    """
+    import copy
+    cache = fn.setdefault("_inl_cache", {})
+    ck = (id(want), depth)
+    if ck in cache:
+        return cache[ck]
+    if want is None:
+        want = default_inline_policy
+    g = {k: v for k, v in fn.items() if not k.startswith("_")}
+    g["blocks"] = copy.deepcopy(fn["blocks"])
+    g["locals"] = list(fn["locals"])
+    g["vars"] = list(fn.get("vars", ()))
+    g["inlined"] = []
+    # (block index, remaining depth, stack of callee paths)
+    work = [(bi, depth, (fn["path"],)) for bi in range(len(g["blocks"]))]
+    while work:
+        bi, d, stack = work.pop(0)
+        if d <= 0 or len(g["blocks"]) > max_blocks:
+            continue
+        b = g["blocks"][bi]
+        t = b["t"]
+        if b["cleanup"] or t["k"] != "call":
+            continue
+        r = t.get("resolved") or (t.get("callee") if not t.get("trait") else None)
+        if not r or r in stack:
+            continue
+        if r in F.built and F.built[r].get("coroutine") and r.endswith("::{closure#0}"):
+            # `.await` of a workspace async fn: the poll call of its coroutine body
+            if _inline_await(F, g, bi, t, r, want):
+                nb0 = g["_last_inl"]
+                for j in range(nb0[0], nb0[1]):
+                    work.append((j, d - 1, stack + (r,)))
+            continue
+        if r not in F.fns:
+            continue
+        callee = F.fns[r]
+        if callee.get("is_async") or callee.get("coroutine") or callee["argc"] != len(t["args"]):
+            continue
+        if not want(t, callee):
+            continue
+        off_l = len(g["locals"])
+        off_b = len(g["blocks"])
+        g["locals"].extend(callee["locals"])
+        for nm, pl in callee.get("vars", ()):
+            g["vars"].append([nm, _shift_place(pl, off_l)])
+        nblocks = len(callee["blocks"])
+        ret_block = off_b + nblocks
+        for cb in callee["blocks"]:
+            nb = {"cleanup": cb["cleanup"], "s": [], "inl": r}
+            for s in cb["s"]:
+                ns = dict(s)
+                ns["lhs"] = _shift_place(s["lhs"], off_l)
+                ns["rv"] = _shift_rv(s["rv"], off_l)
+                ns["inl"] = r
+                nb["s"].append(ns)
+            nt = _shift_term(cb["t"], off_l, off_b, ret_block)
+            nt["inl"] = r
+            nb["t"] = nt
+            g["blocks"].append(nb)
+        # landing block: dest = move callee._0 ; goto original target
+        land = {"cleanup": False, "inl": r, "s": [{"lhs": t["dest"], "rv": {"k": "use", "op": {"mv": {"l": off_l, "p": []}}},
+                                                   "line": t.get("line"), "exp": t.get("exp", ""), "inl_ret": r}],
+                "t": ({"k": "goto", "t": t["t"], "line": t.get("line"), "exp": ""} if t["t"] is not None
+                      else {"k": "unreachable", "line": t.get("line"), "exp": ""})}
+        g["blocks"].append(land)
+        for i, a in enumerate(t["args"]):
+            b["s"].append({"lhs": {"l": off_l + 1 + i, "p": []}, "rv": {"k": "use", "op": a}, "line": t.get("line"),
+                           "exp": t.get("exp", ""), "inl_arg": r})
+        b["t"] = {"k": "goto", "t": off_b, "line": t.get("line"), "exp": t.get("exp", ""), "inl_call": r, "orig_call": t}
+        g["inlined"].append(r)
+        _thread_returns(g, off_l, off_b, nblocks, ret_block, t["dest"], t["t"], wrap=None)
+        for j in range(nblocks):
+            work.append((off_b + j, d - 1, stack + (r,)))
+    g.pop("_last_inl", None)
+    cache[ck] = g
+    return g
+
+
+AWAIT_TRANSPARENT = ("std::pin::Pin::<Ptr>::new_unchecked", "std::future::IntoFuture::into_future",
+                     "<F as std::future::IntoFuture>::into_future")
+
+
+def _inline_await(F, g, bi, t, r, want):
+    """inline the pre-transform coroutine body `r` (= X::{closure#0} of an async fn X) at its poll call in block bi of g.
+    The future must have been created by a call of X in g; X's arguments become the coroutine's captured variables."""
+    owner = r[:-len("::{closure#0}")]
+    ofn = F.fns.get(owner)
+    if ofn is None or not want(t, ofn):
+        return False
+    du = DefUse(g)
+    creators = []
+    for o in provenance(g, du, t["args"][0], transparent_extra=AWAIT_TRANSPARENT):
+        if o.kind == "call" and (o.term.get("resolved") == owner or o.term.get("callee") == owner):
+            creators.append(o.term)
+    if len(creators) != 1:
+        return False
+    ct = creators[0]
+    callee = F.built[r]
+    b = g["blocks"][bi]
+    off_l = len(g["locals"])
+    off_b = len(g["blocks"])
+    g["locals"].extend(callee["locals"])
+    for nm, pl in callee.get("vars", ()):
+        g["vars"].append([nm, _shift_place(pl, off_l)])
+    nblocks = len(callee["blocks"])
+    ret_block = off_b + nblocks
+    for cb in callee["blocks"]:
+        nb = {"cleanup": cb["cleanup"], "s": [], "inl": r}
+        for s in cb["s"]:
+            ns = dict(s)
+            ns["lhs"] = _shift_place(s["lhs"], off_l)
+            ns["rv"] = _shift_rv(s["rv"], off_l)
+            ns["inl"] = r
+            nb["s"].append(ns)
+        nt = _shift_term(cb["t"], off_l, off_b, ret_block)
+        nt["inl"] = r
+        nb["t"] = nt
+        g["blocks"].append(nb)
+    # where the awaiting code continues with Poll::Ready
+    nxt = t["t"]
+    ready = nxt
+    if nxt is not None:
+        sw = g["blocks"][nxt]["t"]
+        if sw["k"] == "switch" and any(st["rv"]["k"] == "discr" and st["rv"].get("adt", "").endswith("task::Poll") for st in g["blocks"][nxt]["s"]):
+            for v, tb in sw["targets"]:
+                if v == 0:
+                    ready = tb
+    land = {"cleanup": False, "inl": r,
+            "s": [{"lhs": t["dest"], "rv": {"k": "agg", "adt": "std::task::Poll", "variant": "Ready", "fields": ["0"], "adt_args": "",
+                                              "ops": [{"mv": {"l": off_l, "p": []}}]},
+                   "line": t.get("line"), "exp": t.get("exp", ""), "inl_ret": r}],
+            "t": ({"k": "goto", "t": ready, "line": t.get("line"), "exp": ""} if ready is not None
+                  else {"k": "unreachable", "line": t.get("line"), "exp": ""})}
+    g["blocks"].append(land)
+    b["s"].append({"lhs": {"l": off_l + 1, "p": []}, "rv": {"k": "agg", "tuple": True, "ops": list(ct["args"])},
+                   "line": t.get("line"), "exp": t.get("exp", ""), "inl_arg": r})
+    if len(t["args"]) > 1:
+        b["s"].append({"lhs": {"l": off_l + 2, "p": []}, "rv": {"k": "use", "op": t["args"][1]}, "line": t.get("line"),
+                       "exp": t.get("exp", ""), "inl_arg": r})
+    b["t"] = {"k": "goto", "t": off_b, "line": t.get("line"), "exp": t.get("exp", ""), "inl_call": r, "orig_call": t, "creator": ct}
+    g["inlined"].append(owner)
+    g["_last_inl"] = (off_b, off_b + nblocks)
+    _thread_returns(g, off_l, off_b, nblocks, ret_block, t["dest"], ready, wrap="Ready")
+    return True
+
+
+_VARIANT_INDEX = {"Ok": 0, "Err": 1, "None": 0, "Some": 1, "Continue": 0, "Break": 1}
+
+
+def _trivial_chain_to(g, start, goal, limit=40):
+    """does every path from block `start` reach block `goal` through goto / drop / drop-flag switches only (statements
+    allowed: drop-flag bookkeeping and unit assignments)?"""
+    seen = set()
+    st = [start]
+    while st:
+        x = st.pop()
+        if x == goal or x in seen:
+            continue
+        seen.add(x)
+        if len(seen) > limit:
+            return False
+        bx = g["blocks"][x]
+        t = bx["t"]
+        if t["k"] not in ("goto", "drop", "switch"):
+            return False
+        for stmt in bx["s"]:
+            rv = stmt["rv"]
+            if rv["k"] == "discr":
+                continue
+            if rv["k"] == "use" and op_const(rv["op"]) is not None:
+                continue
+            return False
+        nxt = succs_of(t)
+        if not nxt:
+            return False
+        st.extend(nxt)
+    return True
+
+
+def _thread_returns(g, off_l, off_b, nblocks, ret_block, dest, cont, wrap):
+    """Keep the callee's Ok/Err (Some/None) returns apart in the caller: when the call's continuation immediately tests the
+    returned value (`?`, `match`, `if let`), each return site of the inlined body whose variant is syntactically known jumps
+    to a private copy of that test with only its own edge.  Without this the returns join in one landing block and an
+    error path of the helper would seem to continue into the caller's success path."""
+    if cont is None:
+        return
+    ret_local = off_l  # callee's _0
+    blocks = g["blocks"]
+    # the continuation: [dest -> Try::branch ->] discriminant switch
+    cb = blocks[cont]
+    pre = []   # (statements, call terminator) executed before the switch, to be copied
+    sw_block = None
+    tested = dest
+    if wrap is not None:
+        # async: continuation starts with `x = move (dest as Ready).0 ; y = move x`, then drops, then the test
+        sw_block = None
+    chain = []
+    x = cont
+    hops = 0
+    # walk forward through gotos/drops collecting statements until a call or switch
+    stmts_acc = []
+    while hops < 8:
+        bx = blocks[x]
+        stmts_acc.extend(bx["s"])
+        tk = bx["t"]["k"]
+        if tk in ("goto", "drop"):
+            x = bx["t"]["t"]
+            hops += 1
+            continue
+        break
+    bx = blocks[x]
+    branch_call = None
+    if bx["t"]["k"] == "call" and (bx["t"].get("callee") or "").endswith("std::ops::Try>::branch") or \
+            (bx["t"]["k"] == "call" and (bx["t"].get("callee") or "") == "std::ops::Try::branch"):
+        branch_call = bx["t"]
+        x2 = branch_call["t"]
+        if x2 is None:
+            return
+        bx2 = blocks[x2]
+        if bx2["t"]["k"] != "switch":
+            return
+        switch_block = x2
+        post_stmts = bx2["s"]
+    elif bx["t"]["k"] == "switch" and any(st["rv"]["k"] == "discr" for st in bx["s"]):
+        switch_block = x
+        post_stmts = []
+    else:
+        return
+    sw = blocks[switch_block]["t"]
+    tmap = dict((v, tb) for v, tb in sw["targets"])
+
+    def edge(idx):
+        return tmap.get(idx, sw["otherwise"])
+
+    # definition sites of the callee's return place with a known variant
+    for j in range(off_b, off_b + nblocks):
+        bj = blocks[j]
+        if bj["cleanup"]:
+            continue
+        variant = None
+        for st in bj["s"]:
+            if st["lhs"]["l"] == ret_local and not st["lhs"]["p"]:
+                rv = st["rv"]
+                if rv["k"] == "agg" and rv.get("variant") in ("Ok", "Err", "Some", "None") and \
+                        rv.get("adt", "").rsplit("::", 1)[-1] in ("Result", "Option"):
+                    variant = rv["variant"]
+                else:
+                    variant = None
+        tj = bj["t"]
+        nxt = None
+        if tj["k"] == "call" and tj["dest"]["l"] == ret_local and not tj["dest"]["p"]:
+            if "from_residual" in (tj.get("callee") or ""):
+                variant = "Err" if "Result" in g["locals"][ret_local][:30] else ("None" if "Option" in g["locals"][ret_local][:30] else None)
+            else:
+                variant = None
+            nxt = tj["t"]
+        elif tj["k"] in ("goto", "drop"):
+            nxt = tj["t"]
+        if variant is None or nxt is None:
+            continue
+        if not _trivial_chain_to(g, nxt, ret_block):
+            continue
+        idx = _VARIANT_INDEX[variant]
+        target = edge(idx)
+        if target is None:
+            continue
+        # private landing: dest = [Ready(]ret[)] ; copied continuation statements ; [branch call ;] copied switch statements ; goto edge
+        first = len(blocks)
+        if wrap:
+            land_s = [{"lhs": dest, "rv": {"k": "agg", "adt": "std::task::Poll", "variant": "Ready", "fields": ["0"], "adt_args": "",
+                                           "ops": [{"mv": {"l": ret_local, "p": []}}]}, "line": None, "exp": "", "inl_ret": True}]
+        else:
+            land_s = [{"lhs": dest, "rv": {"k": "use", "op": {"mv": {"l": ret_local, "p": []}}}, "line": None, "exp": "", "inl_ret": True}]
+        land_s = land_s + [dict(st) for st in stmts_acc]
+        if branch_call is not None:
+            bc = dict(branch_call)
+            bc["t"] = first + 1
+            blocks.append({"cleanup": False, "s": land_s, "t": bc, "threaded": variant})
+            blocks.append({"cleanup": False, "s": [dict(st) for st in post_stmts],
+                           "t": {"k": "goto", "t": target, "line": sw.get("line"), "exp": "", "threaded_edge": variant}, "threaded": variant})
+        else:
+            blocks.append({"cleanup": False, "s": land_s,
+                           "t": {"k": "goto", "t": target, "line": sw.get("line"), "exp": "", "threaded_edge": variant}, "threaded": variant})
+        if tj["k"] == "call":
+            tj["t"] = first
+        else:
+            bj["t"] = dict(tj)
+            bj["t"]["t"] = first
+
+
+def default_inline_policy(t, callee):
+    """plain functions and inherent methods (no trait methods: those are traversal steps or library protocol), small enough"""
+    if callee.get("impl_trait") or callee.get("trait_default"):
+        return False
+    return len(callee["blocks"]) <= 150
